@@ -243,3 +243,115 @@ func vpFSym(b bool) bool {
 	vpAssume(x == b)
 	return x
 }
+
+// VpHWriteBatchOrder: one write batch of TWO requests (what doWrites hands to writeRequests when
+// commits arrive concurrently), where the memtable may become full on the first request so that
+// ensureRoomForWrite rotates to a new memtable (a new .mem file) between the two. With SyncWrites
+// each acknowledged request's WAL bytes must be covered by an msync of the file that holds them —
+// also the request that went into the OLD memtable's WAL. Same environment as VpHWriteOrder,
+// fault-free runs only.
+func VpHWriteBatchOrder() {
+	e := vpFSetup(0)
+	fs, db, dir := e.fs, e.db, e.dir
+	db.opt.SyncWrites = vpBool("syncWrites")
+	db.opt.ValueLogFileSize = 128
+	db.opt.ValueLogMaxEntries = 1000
+	db.threshold = &vlogThreshold{}
+	db.threshold.valueThreshold.Store(64) // both values stay inline
+	vpStub("(*badger.vlogThreshold).update", func(v *vlogThreshold, sizes []int64) {})
+	db.pub = &publisher{subscribers: map[uint64]subscriber{}}
+	db.flushChan = make(chan *memTable, 2)
+	mt, err := db.newMemTable()
+	vpAssume(err == nil)
+	db.mt = mt
+	vpAssume(syncDir(dir) == nil)
+	vlog := &db.vlog
+	vlog.opt, vlog.db, vlog.dirPath = db.opt, db, dir
+	vlog.filesMap = map[uint32]*logFile{}
+	_, err = vlog.createVlogFile()
+	vpAssume(err == nil)
+
+	// when does the memtable count as full: never, already before the batch, or as soon as the
+	// first request's record is in the WAL (rotation between the two requests)
+	switch vpChoose("memtable-full", 3) {
+	case 1:
+		mt.wal.writeAt = uint32(db.opt.MemTableSize)
+		vpCover("wbatch.rotation-before-batch")
+	case 2:
+		// the first record stored into the WAL brings it to MemTableSize (modelled by moving the
+		// write position there right after the real writeEntry: nothing else is written to this
+		// WAL afterwards, and its image still replays to the record)
+		first := true
+		vpStub("(*badger.logFile).writeEntry", func(lf *logFile, buf *bytes.Buffer, en *Entry, opt Options) error {
+			err := lf.writeEntry(buf, en, opt) // the real one
+			if first && lf == mt.wal {
+				first = false
+				lf.writeAt = uint32(db.opt.MemTableSize)
+			}
+			return err
+		})
+		vpCover("wbatch.rotation-between-requests")
+	}
+	mk := func(k string, ts uint64) *request {
+		r := &request{Entries: []*Entry{{Key: y.KeyWithTs([]byte(k), ts), Value: []byte("v-" + k)}}}
+		r.Wg.Add(1)
+		r.IncrRef()
+		return r
+	}
+	reqs := []*request{mk("k1", 7), mk("k2", 8)}
+	fs.arm()
+	werr := db.writeRequests(reqs)
+	for _, r := range reqs {
+		r.Wg.Wait()
+	}
+	vpAssert(werr == nil && reqs[0].Err == nil && reqs[1].Err == nil, "C08:wbatch.succeeds-without-io-error")
+	vpAssert(fs.bad == "", "C08:wbatch.file-handle-discipline")
+
+	// every WAL that exists: the active memtable's and those of the immutable ones
+	wals := []*logFile{db.mt.wal}
+	for _, im := range db.imm {
+		wals = append(wals, im.wal)
+	}
+	holds := func(img []byte, fid uint32, key []byte) bool {
+		got, err := vpFReplay(img, fid)
+		if err != nil {
+			return false
+		}
+		for _, g := range got {
+			if bytes.Equal(g.key, key) {
+				return true
+			}
+		}
+		return false
+	}
+	for i, r := range reqs {
+		key := r.Entries[0].Key
+		inCache, durable, gapOnlyNew := false, false, true
+		for _, w := range wals {
+			wf := fs.lookup(w.path)
+			if wf == nil || !wf.exists {
+				continue
+			}
+			if holds(wf.data, w.fid, key) {
+				inCache = true
+				if wf.synced && holds(wf.snap, w.fid, key) {
+					durable = wf.dirDur
+					gapOnlyNew = wf.dirDur || wf.isNew
+					if !wf.dirDur && wf.isNew {
+						durable = false
+					}
+				} else {
+					gapOnlyNew = false // the CONTENT is not synced: not the known directory-entry class
+				}
+			}
+		}
+		vpAssert(inCache, "C08:wbatch.i2-acked-request-in-wal")
+		if db.opt.SyncWrites {
+			if i == 0 {
+				vpCover("wbatch.syncwrites")
+			}
+			known := !durable && gapOnlyNew
+			vpAssertKnown(vpFSym(durable), "C10:wbatch.i2-every-acked-request-durable", vpFSym(known), vpFKeyDirsync)
+		}
+	}
+}
